@@ -148,6 +148,10 @@ def cases(block):
             # the caller keeps ONE grid object and renders several droplets on it
             for gv in V:
                 yield {"sequence": [dict(seq_probe(gv, ph + 0.05 * i, cls), share_grid=True) for i in range(4)]}
+                if gv["kind"] == "cart":
+                    # ... the first droplet centred EXACTLY on the coordinate origin (all coordinates zero)
+                    first = dict(seq_probe(gv, ph, cls), share_grid=True, centre=[0.0] * len(gv["shape"]), label="coordinate-origin")
+                    yield {"sequence": [first] + [dict(seq_probe(gv, ph + 0.05 * i, cls), share_grid=True) for i in range(1, 3)]}
         return
     if k == "cart-sph":
         dim = block["dim"]
